@@ -33,6 +33,67 @@ fn hmac_eq_len<const N: usize>(split: usize) {
     check!(eq_bytes(&a, &b), "spec hmac == hmac crate");
 }
 
+/// R1 body; `has_c`: explicit 2-byte client identity (concrete per harness: a symbolic choice makes every later hash position symbolic)
+fn honest_agreement_case(has_c: bool) {
+        let pw = any_bytes::<2>();
+        let cred = any_bytes::<2>();
+        let seed = any_bytes::<8>();
+        let s_sk = any_u8();
+        let e_sk_c = any_u8();
+        let e_sk_s = any_u8();
+        assume(s_sk >= 1 && s_sk <= 240 && e_sk_c >= 1 && e_sk_c <= 240 && e_sk_s >= 1 && e_sk_s <= 240);
+        let env_nonce = any_bytes::<32>();
+        let masking_nonce = any_bytes::<32>();
+        let nonce_c = any_bytes::<32>();
+        let nonce_s = any_bytes::<32>();
+        let idc = any_bytes::<2>();
+        let ctx = any_bytes::<2>();
+        let id_u: Option<&[u8]> = if has_c { Some(&idc[..]) } else { None };
+        let id_s: Option<&[u8]> = None;
+        let server_pk = spec::ke_public(s_sk);
+        let k = spec::oprf_key_for(&seed, &cred);
+        // registration
+        let req1 = spec::oprf_blind(&pw, 3);
+        let ev1 = spec::oprf_evaluate(k, req1);
+        let reg = ss::reg_finish(&pw, 3, ev1, |o| *o, &server_pk, id_u, id_s, &env_nonce);
+        // login: client request, server response
+        let req2 = spec::oprf_blind(&pw, 5);
+        let ev2 = spec::oprf_evaluate(k, req2);
+        let client_e_pk = spec::ke_public(e_sk_c);
+        let mut ke1 = [0u8; 35];
+        ke1[0] = req2;
+        put(&mut ke1[1..33], &nonce_c);
+        put(&mut ke1[33..35], &client_e_pk);
+        let masked = spec::mask(&reg.upload[2..10], &masking_nonce, &server_pk, &reg.upload[10..42], &reg.upload[42..50]);
+        let mut head = [0u8; 75];
+        head[0] = ev2;
+        put(&mut head[1..33], &masking_nonce);
+        put(&mut head[33..75], &masked);
+        let client_pk = [reg.upload[0], reg.upload[1]];
+        let eu: &[u8] = id_u.unwrap_or(&client_pk);
+        let server_e_pk = spec::ke_public(e_sk_s);
+        let pre_s = spec::preamble(&ctx, eu, &ke1, &server_pk, &head, &nonce_s, &server_e_pk);
+        let srv = spec::server_ke(pre_s, e_sk_s, s_sk, &client_e_pk, &client_pk);
+        // client finish
+        let out = spec::oprf_finalize(&pw, 5, ev2);
+        let rpwd = spec::randomized_pwd(&out, &out);
+        check!(eq_bytes(&rpwd, &reg.rpwd), "same randomized password at registration and login (blinding cancels)");
+        match ss::recover_credentials(&rpwd, &masking_nonce, &masked, id_u, id_s) {
+            ss::Recovered::Ok { server_pk: spk, client_sk, client_pk: cpk, export_key } => {
+                check!(eq_bytes(&spk, &server_pk), "client recovers the setup's public key");
+                check!(eq_bytes(&export_key, &reg.export_key), "login export key == registration export key");
+                check!(eq_bytes(&cpk, &client_pk), "client recovers its registered key pair");
+                let pre_c = spec::preamble(&ctx, id_u.unwrap_or(&cpk), &ke1, &spk, &head, &nonce_s, &server_e_pk);
+                let cl = spec::client_ke(pre_c, e_sk_c, client_sk, &server_e_pk, &spk, &srv.server_mac);
+                check!(eq_bytes(&cl.expected_server_mac, &srv.server_mac), "client accepts the honest server MAC");
+                check!(eq_bytes(&cl.client_mac, &srv.expected_client_mac), "server accepts the honest client MAC");
+                check!(eq_bytes(&cl.session_key, &srv.session_key), "both sides derive the same session key");
+                cover!(true, "agreement");
+            }
+            ss::Recovered::Invalid => { check!(false, "honest credential recovery succeeds"); }
+        }
+}
+
 /// I2OSP(len,2)||x[..p1] || I2OSP(len,2)||x[p1..p2] || I2OSP(len,2)||x[p2..] for a 6-byte x
 fn enc3(x: &[u8; 6], p1: usize, p2: usize, out: &mut [u8; 12]) {
     let mut n = 0;
@@ -156,66 +217,8 @@ harnesses! {
     /// identifier, identities and context gives equal session keys, the registration's export key and the
     /// setup's public key. (Statement about the oracle only; it is what lets per-step equivalence carry C01.)
     /// Blinds are concrete (3 and 5): unblinding inverts blinding is field arithmetic, not code.
-    fn lemma_spec_honest_agreement [unwind = 120] {
-        let pw = any_bytes::<2>();
-        let cred = any_bytes::<2>();
-        let seed = any_bytes::<8>();
-        let s_sk = any_u8();
-        let e_sk_c = any_u8();
-        let e_sk_s = any_u8();
-        assume(s_sk >= 1 && s_sk <= 240 && e_sk_c >= 1 && e_sk_c <= 240 && e_sk_s >= 1 && e_sk_s <= 240);
-        let env_nonce = any_bytes::<32>();
-        let masking_nonce = any_bytes::<32>();
-        let nonce_c = any_bytes::<32>();
-        let nonce_s = any_bytes::<32>();
-        let idc = any_bytes::<2>();
-        let ctx = any_bytes::<2>();
-        let has_c = any_bool();
-        let id_u: Option<&[u8]> = if has_c { Some(&idc[..]) } else { None };
-        let id_s: Option<&[u8]> = None;
-        let server_pk = spec::ke_public(s_sk);
-        let k = spec::oprf_key_for(&seed, &cred);
-        // registration
-        let req1 = spec::oprf_blind(&pw, 3);
-        let ev1 = spec::oprf_evaluate(k, req1);
-        let reg = ss::reg_finish(&pw, 3, ev1, |o| *o, &server_pk, id_u, id_s, &env_nonce);
-        // login: client request, server response
-        let req2 = spec::oprf_blind(&pw, 5);
-        let ev2 = spec::oprf_evaluate(k, req2);
-        let client_e_pk = spec::ke_public(e_sk_c);
-        let mut ke1 = [0u8; 35];
-        ke1[0] = req2;
-        put(&mut ke1[1..33], &nonce_c);
-        put(&mut ke1[33..35], &client_e_pk);
-        let masked = spec::mask(&reg.upload[2..10], &masking_nonce, &server_pk, &reg.upload[10..42], &reg.upload[42..50]);
-        let mut head = [0u8; 75];
-        head[0] = ev2;
-        put(&mut head[1..33], &masking_nonce);
-        put(&mut head[33..75], &masked);
-        let client_pk = [reg.upload[0], reg.upload[1]];
-        let eu: &[u8] = id_u.unwrap_or(&client_pk);
-        let server_e_pk = spec::ke_public(e_sk_s);
-        let pre_s = spec::preamble(&ctx, eu, &ke1, &server_pk, &head, &nonce_s, &server_e_pk);
-        let srv = spec::server_ke(pre_s, e_sk_s, s_sk, &client_e_pk, &client_pk);
-        // client finish
-        let out = spec::oprf_finalize(&pw, 5, ev2);
-        let rpwd = spec::randomized_pwd(&out, &out);
-        check!(eq_bytes(&rpwd, &reg.rpwd), "same randomized password at registration and login (blinding cancels)");
-        match ss::recover_credentials(&rpwd, &masking_nonce, &masked, id_u, id_s) {
-            ss::Recovered::Ok { server_pk: spk, client_sk, client_pk: cpk, export_key } => {
-                check!(eq_bytes(&spk, &server_pk), "client recovers the setup's public key");
-                check!(eq_bytes(&export_key, &reg.export_key), "login export key == registration export key");
-                check!(eq_bytes(&cpk, &client_pk), "client recovers its registered key pair");
-                let pre_c = spec::preamble(&ctx, id_u.unwrap_or(&cpk), &ke1, &spk, &head, &nonce_s, &server_e_pk);
-                let cl = spec::client_ke(pre_c, e_sk_c, client_sk, &server_e_pk, &spk, &srv.server_mac);
-                check!(eq_bytes(&cl.expected_server_mac, &srv.server_mac), "client accepts the honest server MAC");
-                check!(eq_bytes(&cl.client_mac, &srv.expected_client_mac), "server accepts the honest client MAC");
-                check!(eq_bytes(&cl.session_key, &srv.session_key), "both sides derive the same session key");
-                cover!(true, "agreement");
-            }
-            ss::Recovered::Invalid => { check!(false, "honest credential recovery succeeds"); }
-        }
-    }
+    fn lemma_spec_honest_agreement [unwind = 120] { honest_agreement_case(false); }
+    fn lemma_spec_honest_agreement_explicit_idu [unwind = 120] { honest_agreement_case(true); }
 
     /// R2 — injectivity of the length-prefixed identity/context encoding inside the preamble: two (context, id_u, id_s)
     /// triples of total length <= 6 with the same concatenation "I2OSP(len,2)||context||I2OSP(len,2)||id_u||..." are equal
